@@ -14,6 +14,7 @@ import (
 	"go/constant"
 	"go/token"
 	"go/types"
+	"path"
 	"strings"
 
 	"golang.org/x/tools/go/ssa"
@@ -398,6 +399,20 @@ func (fd *folder) fold(f *ssa.Function, args []cval) foldResult {
 						env[x] = cval{kind: "str", s: asciiLower(c.s)}
 					} else {
 						env[x] = cval{kind: "str", s: asciiUpper(c.s)}
+					}
+					break
+				}
+				// path.Ext / path.Base / filepath.Ext / filepath.Base on a constant (slash-separated semantics; the checks run
+				// on the platform the library is built for, where filepath uses '/')
+				if sc.Pkg != nil && (sc.Pkg.Pkg.Path() == "path" || sc.Pkg.Pkg.Path() == "path/filepath") && (sc.Name() == "Ext" || sc.Name() == "Base") && len(x.Call.Args) == 1 {
+					c, why := get(x.Call.Args[0])
+					if why != "" || c.kind != "str" {
+						return foldResult{undecided: sc.String() + " of a non-constant"}
+					}
+					if sc.Name() == "Ext" {
+						env[x] = cval{kind: "str", s: path.Ext(c.s)}
+					} else {
+						env[x] = cval{kind: "str", s: path.Base(c.s)}
 					}
 					break
 				}
